@@ -42,13 +42,23 @@ class C16(Prop):
         uni = rng.random() < 0.4
         if uni:
             ck["allow_unicode_keys"] = True
-        sk = rng.choice(["none", "none", "pickle", "json", "compressed"])
+        sk = rng.choice(["none", "none", "pickle", "json", "compressed", "legacy", "legacy-half"])
         if sk == "pickle":
             ck["serde"] = {"$serde": {"kind": "pickle", "proto": rng.randint(0, 5)}}
         elif sk == "json":
             ck["serde"] = {"$serde": {"kind": "json"}}
         elif sk == "compressed":
             ck["serde"] = {"$serde": {"kind": "compressed", "min": rng.choice([1, 10, 400])}}
+        elif sk == "legacy":          # the pre-serde serializer= / deserializer= function pair
+            ck["serializer"] = {"$fn": "legacy_ser"}
+            ck["deserializer"] = {"$fn": "legacy_deser"}
+        elif sk == "legacy-half":
+            ck[rng.choice(["serializer", "deserializer"])] = {"$fn": rng.choice(["legacy_ser"])} \
+                if rng.random() < 0.5 else {"$fn": "legacy_deser"}
+            if "serializer" in ck and ck["serializer"]["$fn"] != "legacy_ser":
+                ck["deserializer"] = ck.pop("serializer")
+            if "deserializer" in ck and ck["deserializer"]["$fn"] != "legacy_deser":
+                ck["serializer"] = ck.pop("deserializer")
         if rng.random() < 0.3:
             ck["timeout"] = rng.choice([0.5, 3])
             ck["connect_timeout"] = rng.choice([None, 0.5])
@@ -73,14 +83,21 @@ class C16(Prop):
                 steps.append({"t": "direct", "node": 0, "key": E(wk), "value": E(rng.choice([b"5", b"100", b"0"])),
                               "flags": rng.choice([0, 2])})
             elif r < 0.7:
-                steps.append({"t": "direct", "node": 0, "key": E(wk), "value": E(b"text-" + wk[-3:]),
-                              "flags": rng.choice([0, 16])})
+                if sk.startswith("legacy"):
+                    steps.append({"t": "direct", "node": 0, "key": E(wk), "value": E(rng.choice([b'{"k": [1, 2]}', b'"s"', b"17"])),
+                                  "flags": rng.choice([7, 7, 0])})
+                else:
+                    steps.append({"t": "direct", "node": 0, "key": E(wk), "value": E(b"text-" + wk[-3:]),
+                                  "flags": rng.choice([0, 16])})
 
         def value():
             if sk in ("pickle", "compressed"):
                 return rng.choice([b"bytes", "text", "tëxt", 42, {"a": [1, 2]}, ("t", 1), None, 3.5, "x" * 50])
             if sk == "json":
                 return rng.choice(["text", {"a": 1}, [1, 2], 7])
+            if sk.startswith("legacy"):
+                return rng.choice([b"bytes", {"a": [1, 2]}, [3, "x"], 12, "txt"]) if "serializer" in ck \
+                    else rng.choice([b"bytes", b"7", b"[1, 2]"])
             vals = [b"bytes", "text", 42, b"x" * 150, b"7"]
             if enc != "ascii":
                 vals.append("tëxt")
